@@ -4,6 +4,7 @@ package c11
 
 import (
 	"fmt"
+	"math/bits"
 	"testing"
 
 	"github.com/wollac/iota-crypto-demo/pkg/pow"
@@ -15,6 +16,9 @@ import (
 )
 
 // bit-plane test of checkStateTrits (hook): index of the first lane whose last n trits are zero.
+// W: lanes per bit plane = bits per machine word of the build target.
+const W = bits.UintSize
+
 type planeCase struct {
 	Seed  uint64 `json:"seed"`
 	N     int    `json:"n"`     // required trailing zeros
@@ -35,8 +39,8 @@ func checkPlane(c planeCase) (h.Info, error) {
 	}
 	var l, hh [243]uint
 	s := c.Seed
-	want := 64
-	for j := 0; j < 64; j++ {
+	want := W
+	for j := 0; j < W; j++ {
 		tr := make([]int8, 243)
 		for i := range tr {
 			tr[i] = int8(splitmix(&s)%3) - 1
@@ -49,7 +53,7 @@ func checkPlane(c planeCase) (h.Info, error) {
 				tr[243-z-1] = 1 // exactly z trailing zeros
 			}
 		}
-		if ref.TrailingZeros(tr) >= c.N && want == 64 {
+		if ref.TrailingZeros(tr) >= c.N && want == W {
 			want = j
 		}
 		for i, t := range tr {
@@ -65,14 +69,14 @@ func checkPlane(c planeCase) (h.Info, error) {
 	switch {
 	case want == 0:
 		cls = "plane/lane0"
-	case want == 63:
-		cls = "plane/lane63"
-	case want < 64:
+	case want == W-1:
+		cls = "plane/last-lane"
+	case want < W:
 		cls = "plane/middle-lane"
 	}
 	info := h.Info{Class: cls, NT: true}
 	got := pow.VerifCheckStateTrits(&l, &hh, uint(c.N))
-	if got != want && !(want == 64 && got >= 64) {
+	if got != want && !(want == W && got >= W) {
 		return info, fmt.Errorf("checkStateTrits(n=%d) = %d, first lane with >= %d trailing zero trits is %d", c.N, got, c.N, want)
 	}
 	return info, nil
@@ -91,7 +95,7 @@ func TestPlanes(t *testing.T) {
 			}
 			k := rapid.IntRange(0, 4).Draw(t, "forced")
 			for i := 0; i < k; i++ {
-				lane := h.OneOf(t, "lane", 0, 63, rapid.IntRange(0, 63).Draw(t, "anylane"))
+				lane := h.OneOf(t, "lane", 0, W-1, rapid.IntRange(0, W-1).Draw(t, "anylane"))
 				c.Zeros[lane] = c.N + rapid.IntRange(-1, 1).Draw(t, "dz")
 				if c.Zeros[lane] < 0 {
 					c.Zeros[lane] = 0
@@ -102,8 +106,8 @@ func TestPlanes(t *testing.T) {
 			}
 			return c
 		},
-		Check: checkPlane, Require: []string{"plane/lane0", "plane/lane63", "plane/middle-lane", "plane/none-qualifies"},
-		Rule: "hook: 64-lane bit planes with random hashes and lanes forced to exactly n-1 / n / n+1 trailing zeros at lane 0, 63 or random; checkStateTrits must return the first lane with >= n trailing zero trits (or >= 64 when none); all non-trivial; distinct by case",
+		Check: checkPlane, Require: []string{"plane/lane0", "plane/last-lane", "plane/middle-lane", "plane/none-qualifies"},
+		Rule: "hook: W-lane bit planes (W = bits per machine word: 64, or 32 in the GOARCH=386 variant) with random hashes and lanes forced to exactly n-1 / n / n+1 trailing zeros at lane 0, W-1 or random; checkStateTrits must return the first lane with >= n trailing zero trits (or >= W when none); all non-trivial; distinct by case",
 	})
 }
 
